@@ -362,6 +362,141 @@ def rule_tiling(chk, db, cfgname):
     chk.count('c16.4.batch_loops', n)
 
 
+# closed orientable surfaces as (NumVert, NumEdge, NumTri): Euler characteristic V - E + T = 2 * shells - 2 * handles
+EULER_SAMPLES = [
+    ((4, 6, 4), 2, 'one tetrahedron'), ((8, 18, 12), 2, 'one cube'), ((6, 12, 8), 2, 'one octahedron'),
+    ((16, 36, 24), 4, 'two disjoint cubes'), ((12, 24, 16), 4, 'two disjoint octahedra'),
+    ((24, 54, 36), 6, 'three disjoint cubes'), ((9, 27, 18), 0, 'a torus'), ((16, 48, 32), 0, 'a torus'),
+    ((10, 36, 24), -2, 'a double torus'), ((17, 45, 30), 2, 'a cube next to a torus'),
+    ((25, 63, 42), 4, 'two cubes next to a torus'), ((26, 84, 56), -2, 'a double torus'),
+]
+
+assert all(v - e + t == chi for (v, e, t), chi, _ in EULER_SAMPLES)
+
+
+def _zeval(x, env, inits, leaf, depth=0):
+    """mathematical integer value (C++ int semantics for the small magnitudes sampled: truncating division)"""
+    x = T.strip_copy(x)
+    k = x.get('k')
+    if k == 'int':
+        return int(str(x.get('v', x.get('val'))).rstrip('uUlLzZ'))
+    if k == 'var':
+        if x.get('d') in inits and depth < 8:
+            return _zeval(inits[x['d']], env, inits, leaf, depth + 1)
+        raise _Undef('variable %s' % x.get('n'))
+    if k == 'un' and x.get('op') == '-':
+        return -_zeval(x['e'], env, inits, leaf, depth)
+    if k == 'bin' and x.get('op') in ('+', '-', '*', '/', '%'):
+        l = _zeval(x['l'], env, inits, leaf, depth)
+        r = _zeval(x['r'], env, inits, leaf, depth)
+        if x['op'] == '+':
+            return l + r
+        if x['op'] == '-':
+            return l - r
+        if x['op'] == '*':
+            return l * r
+        if r == 0:
+            raise _Undef('division by zero')
+        q = abs(l) // abs(r) * (1 if (l < 0) == (r < 0) else -1)
+        return q if x['op'] == '/' else l - q * r
+    if k == 'call':
+        v = leaf(T.short(x.get('fn', '')))
+        if v is not None:
+            return v
+    if k in ('ctor', 'cast') and len(x.get('args', [])) == 1:
+        return _zeval(x['args'][0], env, inits, leaf, depth)
+    raise _Undef('term %s' % T.pstr(x)[:40])
+
+
+def _zbeval(x, env, inits, leaf):
+    x = T.strip_copy(x)
+    if x.get('k') == 'un' and x.get('op') == '!':
+        return not _zbeval(x['e'], env, inits, leaf)
+    if x.get('k') == 'bin' and x.get('op') in ('<', '<=', '>', '>=', '!=', '=='):
+        l, r = _zeval(x['l'], env, inits, leaf), _zeval(x['r'], env, inits, leaf)
+        return {'<': l < r, '<=': l <= r, '>': l > r, '>=': l >= r, '!=': l != r, '==': l == r}[x['op']]
+    if x.get('k') == 'bin' and x.get('op') in ('&&', '||'):
+        l = _zbeval(x['l'], env, inits, leaf)
+        return (l and _zbeval(x['r'], env, inits, leaf)) if x['op'] == '&&' else (l or _zbeval(x['r'], env, inits, leaf))
+    raise _Undef('condition %s' % T.pstr(x)[:40])
+
+
+def rule_genus_gate(chk, db, cfgname):
+    chk.rule('C16.5', 'the convexity classification that selects Minkowski\'s single-hull path is gated on the surface '
+             'being ONE sphere: in Impl::IsConvex the test over NumVert/NumEdge/NumTri that returns false - its '
+             'arithmetic taken from the source and evaluated on a table of closed surfaces (1-3 shells, 0-2 handles) - '
+             'lets exactly the surfaces with V - E + T == 2 and no more through to the per-edge test; a one-sided gate '
+             'classifies a union of disjoint convex pieces as convex and the sum fills the gap between them')
+    fs = [f for f in db.functions.values() if f.get('blocks') and f['name'] == 'manifold::Manifold::Impl::IsConvex']
+    if not fs:
+        raise AnalysisBroken('C16.5: manifold::Manifold::Impl::IsConvex is gone')
+    n = 0
+    for f in fs:
+        g = C.Cfg(f)
+        inits, assigned = {}, set()
+        for b in f['blocks']:
+            for e in b['ev']:
+                if e.get('k') == 'decl':
+                    for v in e['vars']:
+                        if isinstance(v.get('init'), dict) and v.get('d'):
+                            inits[v['d']] = v['init']
+                for y in T.walk(e):
+                    if isinstance(y, dict) and y.get('k') == 'bin' and y.get('op', '').endswith('=') and \
+                            y.get('op') not in ('==', '!=', '<=', '>='):
+                        t = T.strip(y['l'])
+                        if t.get('k') == 'var' and t.get('d'):
+                            assigned.add(t['d'])
+        inits = {d: i for d, i in inits.items() if d not in assigned}
+
+        def returns_false(bid):
+            return any(e.get('k') == 'return' and isinstance(e.get('e'), dict) and
+                       T.strip_copy(e['e']).get('k') == 'bool' and T.strip_copy(e['e']).get('v') is False
+                       for e in g.blocks[bid]['ev'])
+        gates = []
+        for b in f['blocks']:
+            cond, _ = C.branch_cond(b)
+            succ = b.get('succ') or []
+            if cond is None or len(succ) != 2 or not any(returns_false(s) for s in succ):
+                continue
+            used = set()
+            try:
+                _zbeval(cond, {}, inits, lambda name: used.add(name) or 1 if name in ('NumVert', 'NumEdge', 'NumTri')
+                        else None)
+            except _Undef:
+                continue
+            if used:
+                gates.append((b, cond, succ))
+        if not gates:
+            raise AnalysisBroken('C16.5: Impl::IsConvex has no recognisable test over NumVert/NumEdge/NumTri that '
+                                 'returns false (the genus gate)')
+        bad = None
+        for (V, E, Tn), chi, what in EULER_SAMPLES:
+            leaf = lambda name: {'NumVert': V, 'NumEdge': E, 'NumTri': Tn}.get(name)
+            passes = True
+            for b, cond, succ in gates:
+                taken = succ[0] if _zbeval(cond, {}, inits, leaf) else succ[1]
+                if returns_false(taken):
+                    passes = False
+            if passes != (chi == 2):
+                bad = (what, (V, E, Tn), chi, passes)
+                break
+        n += 1
+        ok = bad is None
+        chk.obligation(ok, {'function': f['name'], 'gate': [T.pstr(c)[:60] for _, c, _ in gates],
+                            'lines': [c.get('ln') for _, c, _ in gates],
+                            'surfaces evaluated': len(EULER_SAMPLES), 'counter-example': bad})
+        if not ok:
+            chk.violation('C16.5', f, 'genus gate of IsConvex is not "exactly one sphere"',
+                          '%s (V, E, T = %s, V - E + T = %d) %s the gate %s: %s' % (
+                              bad[0], bad[1], bad[2], 'passes' if bad[3] else 'is rejected by',
+                              ' / '.join(T.pstr(c)[:50] for _, c, _ in gates),
+                              'a mesh of several convex shells is classified convex, Minkowski takes the single-hull '
+                              'path and the result contains points farther from A than the reach of B' if bad[3] else
+                              'a convex operand is sent down the per-triangle path'),
+                          line=gates[0][1].get('ln'), cfg=cfgname)
+    chk.count('c16.5.genus_gates', n)
+
+
 def main(chk, tier):
     import db as D
     configs = ['seq', 'par'] if tier == 'quick' else ['seq', 'par', 'seq-debug']
@@ -375,9 +510,11 @@ def main(chk, tier):
         rule_batches(chk, db, cfgname)
         rule_stale_before_swap(chk, db, cfgname)
         rule_tiling(chk, db, cfgname)
+        rule_genus_gate(chk, db, cfgname)
     chk.floor('c16.1.reorder_events', 3 * len(configs))
     chk.floor('c16.2.batched_loops', len(configs))
     chk.floor('c16.3.swaps', 2 * len(configs))
+    chk.floor('c16.5.genus_gates', len(configs))
     if not any(v.get('rule') == 'C16.2' for v in chk.violations):
         # a functor that lost the offset (C16.2) is no offset-carrying loop any more: that is C16.2's report
         chk.floor('c16.4.batch_loops', len(configs))
